@@ -1,6 +1,7 @@
 package value
 
 import (
+	"bytes"
 	"context"
 	"encoding/json"
 	stdErrors "errors"
@@ -8,6 +9,7 @@ import (
 	"math"
 	"sort"
 	"strconv"
+	"strings"
 
 	"github.com/smarthome-go/homescript/v3/homescript/errors"
 )
@@ -114,11 +116,43 @@ func marshalValue(self Value, span errors.Span, isInner bool, executor Executor)
 	}
 }
 
+// Decodes a JSON document for `parse_json`. Numbers are kept as written (`json.Number`) so that
+// `unmarshalValue` can tell ints from floats by their spelling and large ints are not rounded to a float.
+// Syntax errors and trailing data are reported exactly like `json.Unmarshal` reports them.
+func decodeJson(text string) (interface{}, error) {
+	var checked json.RawMessage
+	if err := json.Unmarshal([]byte(text), &checked); err != nil {
+		return nil, err
+	}
+	decoder := json.NewDecoder(bytes.NewReader(checked))
+	decoder.UseNumber()
+	var raw interface{}
+	if err := decoder.Decode(&raw); err != nil {
+		return nil, err
+	}
+	return raw, nil
+}
+
 func unmarshalValue(span errors.Span, self interface{}) (*Value, *Interrupt) {
 	// TODO: do this
 	switch self := self.(type) {
 	case string:
 		return NewValueString(self), nil
+	case json.Number:
+		// A number of a JSON document (see `decodeJson`): the spelling decides. An integer spelling which
+		// fits an int is an int (exactly, no detour through a float), every other number is a float.
+		text := self.String()
+		if !strings.ContainsAny(text, ".eE") {
+			if i, err := strconv.ParseInt(text, 10, 64); err == nil {
+				return NewValueInt(i), nil
+			}
+		}
+		f, err := strconv.ParseFloat(text, 64)
+		if err != nil {
+			// out of the float range: the error `json.Unmarshal` reports for such a number
+			return nil, NewThrowInterrupt(span, fmt.Sprintf("JSON parse error: json: cannot unmarshal number %s into Go value of type float64", text))
+		}
+		return NewValueFloat(f), nil
 	case float64:
 		if float64(int64(self)) == self {
 			return NewValueInt(int64(self)), nil
